@@ -160,11 +160,6 @@ theorem popMax_none {wl : List Entry} (h : popMax wl = none) : wl = [] := by
 
 /-! ## ancestry -/
 
-/-- `Anc g a c`: `a` is `c` or reachable from `c` along parent edges (ancestor-or-self) -/
-inductive Anc (g : Graph) : Nat → Nat → Prop
-  | refl (c : Nat) : Anc g c c
-  | step {a p c : Nat} : p ∈ g.parents c → Anc g a p → Anc g a c
-
 theorem Anc.trans {g : Graph} {a b c : Nat} (h1 : Anc g a b) (h2 : Anc g b c) : Anc g a c := by
   induction h2 with
   | refl => exact h1
@@ -172,9 +167,6 @@ theorem Anc.trans {g : Graph} {a b c : Nat} (h1 : Anc g a b) (h2 : Anc g b c) : 
 
 theorem Anc.parent {g : Graph} {p c : Nat} (h : p ∈ g.parents c) : Anc g p c :=
   Anc.step h (Anc.refl p)
-
-/-- strict ancestor: ancestor-or-self of a parent -/
-def SAnc (g : Graph) (a c : Nat) : Prop := ∃ p, p ∈ g.parents c ∧ Anc g a p
 
 theorem SAnc.anc {g : Graph} {a c : Nat} (h : SAnc g a c) : Anc g a c := by
   obtain ⟨p, hp, ha⟩ := h
@@ -194,14 +186,6 @@ theorem Anc.eq_or_sanc {g : Graph} {a c : Nat} (h : Anc g a c) : a = c ∨ SAnc 
   cases h with
   | refl => exact Or.inl rfl
   | step hp ha => exact Or.inr ⟨_, hp, ha⟩
-
-/-- common ancestor of `c1` and (at least one of) `c2s` -/
-def CA (g : Graph) (c1 : Nat) (c2s : List Nat) (x : Nat) : Prop :=
-  Anc g x c1 ∧ ∃ c2, c2 ∈ c2s ∧ Anc g x c2
-
-/-- maximal common ancestor: a common ancestor that is not a strict ancestor of another one -/
-def MaxCA (g : Graph) (c1 : Nat) (c2s : List Nat) (x : Nat) : Prop :=
-  CA g c1 c2s x ∧ ¬ ∃ y, CA g c1 c2s y ∧ SAnc g x y
 
 theorem CA.of_anc {g : Graph} {c1 : Nat} {c2s : List Nat} {x y : Nat} (h : CA g c1 c2s y) (hx : Anc g x y) :
     CA g c1 c2s x := by
@@ -1404,9 +1388,6 @@ theorem init_candInv (g : Graph) (c1 : Nat) (c2s : List Nat) : CandInv (init g c
 /-! ## invariant 5 (stamps strictly increasing from parent to child): nothing queued is newer than a
 recorded candidate -/
 
-/-- stamps strictly increase from every parent to its child -/
-def Graph.StrictMono (g : Graph) : Prop := ∀ c p, p ∈ g.parents c → g.ts p < g.ts c
-
 theorem Anc.ts_le {g : Graph} (hm : g.StrictMono) {a c : Nat} (h : Anc g a c) : g.ts a ≤ g.ts c := by
   induction h with
   | refl => exact Int.le_refl _
@@ -1838,11 +1819,34 @@ theorem independent_exact {g : Graph} (hwf : g.WF) (hmono : g.StrictMono) (hpos 
             exact hne ((List.getElem?_inj hjl hnd).mp (hj.trans hi.symm))
           · exact hn ⟨o, List.mem_iff_getElem?.mpr ⟨j, hj⟩, hox, ha⟩
 
+/-! ## acyclic histories -/
+
+theorem Anc.rk_le {g : Graph} {rk : Nat → Nat} (hrk : ∀ c p, p ∈ g.parents c → rk p < rk c) {a c : Nat}
+    (h : Anc g a c) : rk a ≤ rk c := by
+  induction h with
+  | refl => exact Nat.le_refl _
+  | step hp _ ih => exact Nat.le_of_lt (Nat.lt_of_le_of_lt ih (hrk _ _ hp))
+
+theorem SAnc.rk_lt {g : Graph} {rk : Nat → Nat} (hrk : ∀ c p, p ∈ g.parents c → rk p < rk c) {a c : Nat}
+    (h : SAnc g a c) : rk a < rk c := by
+  obtain ⟨p, hp, ha⟩ := h
+  exact Nat.lt_of_le_of_lt (ha.rk_le hrk) (hrk _ _ hp)
+
 /-! ## concrete graphs: the hypotheses of the theorems are decidable on `Graph.ofLists` -/
 
 theorem ofLists_strictMono (ps : List (List Nat)) (ts : List Int)
     (h : ∀ c, c < ps.length → ∀ p, p ∈ ps.getD c [] → ts.getD p 0 < ts.getD c 0) :
     (Graph.ofLists ps ts).StrictMono := by
+  intro c p hp
+  by_cases hc : c < ps.length
+  · exact h c hc p hp
+  · simp only [Graph.ofLists] at hp
+    rw [List.getD_eq_getElem?_getD, List.getElem?_eq_none (Nat.le_of_not_lt hc)] at hp
+    cases hp
+
+theorem ofLists_rank (ps : List (List Nat)) (ts : List Int) (rk : Nat → Nat)
+    (h : ∀ c, c < ps.length → ∀ p, p ∈ ps.getD c [] → rk p < rk c) :
+    ∀ c p, p ∈ (Graph.ofLists ps ts).parents c → rk p < rk c := by
   intro c p hp
   by_cases hc : c < ps.length
   · exact h c hc p hp
